@@ -508,6 +508,10 @@ func (c *fctx) binary(x *ast.BinaryExpr) string {
 		}
 		return fmt.Sprintf("(%s %s %d)", l, op, n)
 	}
+	if k == types.Int && (x.Op == token.QUO || x.Op == token.REM) && c.isNonneg(x) {
+		nt, _ := c.natTerm(x)
+		return "(" + nt + " : Int)"
+	}
 	l := c.expr(x.X)
 	r := c.expr(x.Y)
 	var op string
